@@ -18,5 +18,6 @@ Extraction "model.ml"
   send_timeout tstep tinit trun tfirst_reject cyc_of_list
   qstep qinit qrun q_clean q_is_returned q_is_connected q_is_running
   shape_accepts rframe_of_shape ticker_eligible role_of_descriptor
+  kstep kinit krun kfirst_reject
   Nat.eqb Nat.add
   Z.add Z.mul Z.sub Z.ltb Z.leb Z.eqb Z.of_nat Z.to_nat Z.pow Z.modulo Z.div.
